@@ -12,6 +12,7 @@ Layering (DESIGN §4 C15):
   `C15_full` is the statement of properties.jsonl for the live code; `c15_full_refuted` its refutation.
 -/
 import Dawgs.Proofs.C15
+import Dawgs.Proofs.C15Tarjan
 namespace Dawgs.C15.Props
 open Dawgs.C15 Dawgs.C16
 
@@ -40,9 +41,23 @@ decomposition in reverse topological order).  Every check run evaluates `checkSC
 def tarjan_correct_full : Prop :=
   ∀ g : Digraph, g.WF → ∃ comps lk, tarjan g = some (comps, lk) ∧ checkSCC g comps = true
 
-/-- What holds of Tarjan's output for every graph today: whenever the checker accepts it, it IS the SCC
-decomposition (soundness is unconditional; completeness of the checker on Tarjan's output is
-`tarjan_correct_full`). -/
+/-- The iterative Tarjan loop never exhausts its fuel `|V|·(|V|+1)+1`: it returns on EVERY digraph
+(measure: remaining branches of the cursors on the dfs stack + one cursor's worth per undiscovered node). -/
+theorem tarjan_terminates (g : Digraph) : (tarjan g).isSome = true := tarjan_isSome g
+
+/-- Tarjan's output is a PARTITION of the node set, for every digraph: every node lies in exactly one emitted
+component, nothing else does, and no component is empty.  (Invariants: discovered = on the Tarjan stack or
+emitted; the dfs cursors are a subsequence of the stack; low-links stay within [discovery index of the run's
+first node, own discovery index], so the run's first cursor always closes a component that unwinds the whole
+stack.) -/
+theorem tarjan_partition (g : Digraph) (comps : List (List Nat)) (lk : List (Nat × Nat))
+    (h : tarjan g = some (comps, lk)) :
+    (∀ v, v ∈ g.nodes ↔ v ∈ comps.flatten) ∧ comps.flatten.Nodup ∧ ∀ C, C ∈ comps → C ≠ [] :=
+  tarjan_partition_aux comps lk h
+
+/-- What holds of Tarjan's output for every graph today beyond termination and partition: whenever the checker
+accepts it, it IS the SCC decomposition (soundness is unconditional; what `tarjan_correct_full` still asks is that
+each emitted component is strongly connected and that no edge leads to a later-emitted component). -/
 theorem tarjan_correct_partial (g : Digraph) (comps : List (List Nat)) (lk : List (Nat × Nat))
     (_ht : tarjan g = some (comps, lk)) (hc : checkSCC g comps = true) : IsSCC g comps :=
   checkSCC_sound hc
